@@ -6,11 +6,13 @@ CONSTANTS
  HashSession = TRUE
  HashId = TRUE
  DedupMode = "none"
+ AtomicDedup = TRUE
  AllowRelay = TRUE
  MCCfgs <- Cfg3
  Bodies = {x, y}
  MaxFSig = 99
  MaxB = 0
+ Conc = 0
  Lists = "best"
 SYMMETRY Sym
 INVARIANTS AgreementAccepted
